@@ -38,6 +38,13 @@ CHECKS = {
          "profile, file, mmap) including whether the string scan was really skipped.", "DESIGN.md §7 C06",
          "Compiler profile and mem/file/mmap do not exist in the model: one prediction is compared with each of them. Match "
          "details are compared between configurations of the implementation (subset of the full run)."),
+ "C08": ("proof", "C08_depth_bounded: a verified checker (soundness proved for all graphs) run on the call graph and recursion "
+         "guards regenerated from the parser / compiler source on each run bounds the depth of every call chain by the "
+         "configured limits; the rest of the property (arbitrary panics, spans on character boundaries, running time, finalize "
+         "+ scan of accepted rule sets) is explored with grammar-, token- and byte-mutated texts and pathological nestings, each "
+         "compiled in a child process with a reduced stack.", "DESIGN.md §7 C08, notes/C08.md",
+         "translators/callgraph.py over-approximates call edges and recognises guard sites; that every guard restores its "
+         "counter is an assumption checked only by exploration. Open finding C08-ast-drop-recursion."),
  "C10": ("proof", "Generic wire codec round-trip theorem; write/read schemas and rebuild parameters of every `mod wire` block "
          "regenerated from the source on each run and proved to agree; correspondence: byte identity of re-serialisation, rule "
          "listing and scan results of original vs reloaded scanner.", "DESIGN.md §7 C10, notes/C10.md",
@@ -69,7 +76,6 @@ CHECKS = {
 PENDING = {
  "C03": "check under construction (regex strings / matches operator: Spec/Regex.v exists, property module not yet registered)",
  "C07": "check under construction (three-way run against libyara 4.5.5 not yet built)",
- "C08": "check under construction (call-graph translator and depth theorem in progress)",
  "C09": "check under construction (exploration harness and kernel no-panic theorems in progress)",
  "C11": "check under construction (fragmented scan model in progress)",
  "C12": "check under construction (per-variable decomposition proved in Proofs, property module not yet registered)",
